@@ -1,21 +1,30 @@
 import json, sys
 pid = sys.argv[1]
+wt = sys.argv[2] if len(sys.argv) > 2 else '/tmp/wt-' + pid
+mech = int(sys.argv[3]) if len(sys.argv) > 3 else None
 for l in open('/verif/properties.jsonl'):
     p = json.loads(l)
     if p['id'] == pid: break
-print(f"""You are helping evaluate a verification effort for the OpenStack Mistral workflow service (Python). You have your OWN scratch git worktree of the repository at /tmp/wt-{pid} (a checkout of the pinned commit). Work ONLY inside /tmp/wt-{pid}. Never touch /repo or /verif, never read anything under /verif.
+hint = ''
+if mech is not None:
+    ms = p['anchors']['mechanism']
+    m = ms[mech % len(ms)]
+    hint = ("  The property rests on several mechanisms; for this exercise aim at this one (or code it cooperates with): "
+            + m['name'] + " [" + m['where'] + "]. Files involved in the property: " + ', '.join(p['anchors']['files']) + "\n")
+print(f"""You are helping evaluate a verification effort for the OpenStack Mistral workflow service (Python). You have your OWN scratch git worktree of the repository at {wt} (a checkout of the pinned commit). Work ONLY inside {wt}. Never touch /repo or /verif, never read anything under /verif.
 
 Property (this must hold for the real system):
   Title: {p['title']}
   Statement: {p['statement']}
   Quantified over: {p['quantifier']['text']}
+{hint}
 
 Your task: produce ONE realistic source change (a "seeded defect") to the mistral package in your worktree that BREAKS this property, while:
   1. the package still imports/compiles, and
-  2. the existing unit test suite still passes (run it from the worktree: `cd /tmp/wt-{pid} && /venv/bin/python -m pytest -q -p no:cacheprovider --timeout=900 -x -q mistral/tests/unit/<relevant subdirs>` while iterating; before finishing run the relevant large subsets, e.g. mistral/tests/unit/engine, mistral/tests/unit/workflow, mistral/tests/unit/services, mistral/tests/unit/api, mistral/tests/unit/lang, mistral/tests/unit/scheduler, mistral/tests/unit/db — whichever your change can affect — and confirm no test that passed before fails now; check with `python -c "import mistral; print(mistral.__file__)"` run from the worktree directory that the worktree copy is the one imported. Four tests fail on the unmodified tree already; ignore failures that also happen without your change).
+  2. the existing unit test suite still passes (run it from the worktree: `cd {wt} && /venv/bin/python -m pytest -q -p no:cacheprovider --timeout=900 -x -q mistral/tests/unit/<relevant subdirs>` while iterating; before finishing run the relevant large subsets, e.g. mistral/tests/unit/engine, mistral/tests/unit/workflow, mistral/tests/unit/services, mistral/tests/unit/api, mistral/tests/unit/lang, mistral/tests/unit/scheduler, mistral/tests/unit/db — whichever your change can affect — and confirm no test that passed before fails now; check with `python -c "import mistral; print(mistral.__file__)"` run from the worktree directory that the worktree copy is the one imported. Four tests fail on the unmodified tree already; ignore failures that also happen without your change).
   3. the defect is SUBTLE: it must need something specific to manifest — a particular interleaving/ordering of events, a crash or fault at a particular point, a multi-step sequence of operations, an unusual input or configuration, or two cooperating sites that each look fine alone. NOT something ordinary use would expose at once, and not a change that makes everything fail. It should look like a plausible bug a developer could introduce (an off-by-one, a dropped guard, a wrong comparison, a missing re-check, a refactoring slip), small (a few lines), in non-test code only. Do not add comments that reveal it.
 
-Deliverables, all written under /tmp/wt-{pid}/_seeded/ :
+Deliverables, all written under {wt}/_seeded/ :
   - patch.diff : `git diff` of your change against HEAD (source change only, no tests), applicable with `git apply` at the repository root.
   - demo.py (or demo_test.py): a self-contained demonstration — a small program or test using the repository's own test infrastructure (e.g. subclassing mistral.tests.unit.engine.base.EngineTestCase or plain unit-level calls with mocks) — that FAILS (non-zero exit / failing assertion) with your change applied and PASSES on the unmodified code. Say exactly how to run it from the worktree root (e.g. `/venv/bin/python -m pytest -q -p no:cacheprovider _seeded/demo_test.py`). Verify both directions yourself (use `git diff > _seeded/patch.diff; git apply -R _seeded/patch.diff` to test without the change, then `git apply _seeded/patch.diff` to re-apply; NEVER use `git stash`: the stash is shared between worktrees).
   - meta.json : {{"property": "{pid}", "summary": "...what the change does...", "needs": "...what specific circumstance is needed for it to manifest...", "files": [...], "demo_cmd": "...", "tests_run": "...which test subsets you ran and their result..."}}
